@@ -71,13 +71,19 @@ def check_C01(tier, seed):
            ("TimeWarpMC_m1.tla", "TimeWarpMC_m1_k3.cfg", "m1", 3)],
           [("TimeWarpMC_m2.tla", "TimeWarpMC_m2_k1.cfg", "m2 (3 LPs, cascade of depth 2, zero-delay tie)", 1),
            ("TimeWarpMC_m2.tla", "TimeWarpMC_m2_k3.cfg", "m2", 3)])
-    return _sys("C01", tier, seed, ["C01", "C03"], ["mixed", "ties", "zerodelay", "fanout", "chain", "single", "mixed", "chain"], 8, 40, 5, 12, mc=mc)
+    return _sys("C01", tier, seed, ["C01", "C03"], ["mixed", "ties", "zerodelay", "fanout", "chain", "single", "relay", "chain"], 8, 40, 5, 12, mc=mc)
+
+
+MCG_NOTE = ("TimeWarpMC with an abstract GVT (any safe lower bound, same value for every thread of a round, two values) and fossil collection "
+            "transcribed from fossil.c/multi.c, micro-model m1, checkpoint every %d events: every interleaving; committed entries compared with the sequential "
+            "history when released, rollbacks after fossil collection exact")
 
 
 def check_C03(tier, seed):
     em = lambda r: {"batch": r.choice([1, 1, 2]), "period": r.choice([0, 0, 30]),
                     "term": r.choice([0, 0, 0, 4, 9]), "stop_at": r.choice([0, 0, 0, 0, r.randrange(200, 3000)])}
-    return _sys("C03", tier, seed, ["C03"], ["mixed", "fanout", "ties", "zerodelay"], 6, 30, 6, 12, em, "small", "medium")
+    mc = ([("TimeWarpMC_m1.tla", "TimeWarpMC_m1_g2.cfg", "m1+GVT", 2)], [("TimeWarpMC_m1.tla", "TimeWarpMC_m1_g1.cfg", "m1+GVT", 1)])
+    return _sys("C03", tier, seed, ["C03"], ["mixed", "fanout", "ties", "zerodelay", "relay"], 6, 30, 6, 12, em, "small", "medium", mc=mc)
 
 
 DIST_EM = lambda r: {"ranks": r.choice([2, 2, 3]), "threads": r.choice([1, 2, 2]), "net": r.choice([0, 0, 1]),
@@ -255,6 +261,8 @@ def check_C13(tier, seed):
         c.build()
         _alloc_mc(c, tier)
         c.driver_phase(_alloc_runs(tier, seed + 7))
+        _tw_mc(c, tier, [("TimeWarpMC_m1.tla", "TimeWarpMC_m1_g1.cfg", "m1 + abstract GVT + fossil collection (fossil then rollback to the first uncommitted position)", 1)] +
+               ([("TimeWarpMC_m1.tla", "TimeWarpMC_m1_g2.cfg", "m1 + abstract GVT + fossil collection", 2)] if tier == "thorough" else []))
         em = lambda r: {"ckpt": r.choice([1, 2, 3, 4, 6]), "batch": 1, "period": 0, "switch": r.choice(["1/8", "1/24", "1/96"]),
                         "threads": r.choice([2, 3, 4])}
         c.run(_models(tier, seed, ["mixed", "fanout", "zerodelay"], 6, 30, "small", "medium"), 5 if tier == "quick" else 14, emphasis=em)
